@@ -30,7 +30,7 @@ func init() {
 	}
 	c05 := mk("C05", []string{"cells are small integers and NULL; statement forms: INSERT (1 and 2 rows, wrong length), UPDATE/DELETE with and without WHERE, REPLACE on one key column, ADD/DROP/RENAME column, on file tables and a temporary table; INSERT..SELECT, column lists, UPDATE..FROM join, multi-assignment UPDATE, ADD FIRST / DEFAULT expression, CREATE TABLE AS SELECT, SET ENCODING, inserts made by user-defined functions"}, "TxnGen_create.cfg", "TxnGen_temp.cfg")
 	c05.Random = func(r *core.Run, k int) (Action, []Action) { return txnRandom(r, k, "dml") }
-	c08 := mk("C08", []string{"failure causes modelled: division by zero at one row of a multi-row UPDATE, wrong row length, unknown field after RENAME/DROP, duplicate column, existing file, missing file, failing DEFAULT expression, ambiguous join update, CREATE TABLE AS SELECT with wrong names / failing query, COMMIT that cannot encode a changed file"}, "TxnGen_create.cfg", "TxnGen_commitfail.cfg", "TxnGen_temp.cfg")
+	c08 := mk("C08", []string{"failure causes modelled: division by zero at one row of a multi-row UPDATE, wrong row length, unknown field after RENAME/DROP, duplicate column, existing file, missing file, failing DEFAULT expression, ambiguous join update, CREATE TABLE AS SELECT with wrong names / failing query, COMMIT that cannot encode a changed file, one UPDATE of two tables failing in the second"}, "TxnGen_create.cfg", "TxnGen_commitfail.cfg", "TxnGen_temp.cfg", "TxnGen_two.cfg")
 	c08.Random = func(r *core.Run, k int) (Action, []Action) { return txnRandom(r, k, "fail") }
 	c20 := mk("C20", []string{"the environment is a second real csvq transaction in the same OS process with a 50 ms wait timeout; reads by identifier, sub-query, aggregate and table function (f2 carries a byte order mark)"}, "TxnGen_reads.cfg")
 	c20.Random = func(r *core.Run, k int) (Action, []Action) { return txnRandom(r, k, "env") }
@@ -183,6 +183,8 @@ func txnSQL(a Action) string {
 		return fmt.Sprintf("INSERT INTO %s VALUES (%d, 1), (%d);", t, k, k+1)
 	case "updatejoin":
 		return fmt.Sprintf("UPDATE tx SET tx.v = ux.v FROM %s tx JOIN %s ux ON tx.id = ux.id;", t, tname(aStr(a, "u")))
+	case "updatetwo":
+		return fmt.Sprintf("UPDATE tx, ux SET tx.v = tx.v + 1, ux.v = CASE WHEN ux.id = %d THEN 1 %% 0 ELSE ux.v + 1 END FROM %s tx JOIN %s ux ON tx.id = ux.id;", k, t, tname(aStr(a, "u")))
 	case "deletejoin":
 		return fmt.Sprintf("DELETE tx FROM %s ux JOIN %s tx ON tx.id = ux.id;", tname(aStr(a, "u")), t)
 	case "addfirst":
